@@ -15,7 +15,7 @@ from lib import common, gen
 from lib.hist import KVStore, SQLStore, address
 from lib.kvimpl import model_event
 
-THEOREMS_TIED = ["C09_kv_regular_untouched", "C09_kv_removed_spec", "C09_kv_never_removes_itself",
+THEOREMS_TIED = ["C09_kv_regular_untouched", "C09_kv_removed_spec", "C09_kv_never_removes_itself", "C09_kv_older_gone", "C09_kv_older_gone_reachable",
                  "C09_sql_removed_spec", "C09_sql_older_gone", "C09_sql_newest_survives"]
 
 AUTH = gen.AUTHORS[2:4]
